@@ -28,12 +28,12 @@ type RawValues = Vec<RecordValue>;
 //@item src/limits.rs struct ColorLimits
 //@enditem
 //@item src/pointcloud.rs struct PointCloud
-//@rw : (Option<)?(String|Transform|DateTime|Vec<String>)>?, ==> : Opaque,
+//@rw \b(String|Transform|DateTime)\b ==> Opaque
 //@enditem
 //@item src/pc_writer.rs struct PointCloudWriter
 //@rw <'a, T: Read \+ Write \+ Seek> ==> <'a>
 //@rw PagedWriter<T> ==> PagedWriter
-//@rw : (Option<)?(String|Transform|DateTime|Vec<String>)>?, ==> : Opaque,
+//@rw \b(String|Transform|DateTime)\b ==> Opaque
 //@enditem
 
 // ---- contract-only leaves (proved on the real functions by the Kani unit wr_k) --------------------
@@ -51,6 +51,98 @@ fn update_min<T>(value: T, min: &mut Option<T>)
 fn update_max<T>(value: T, min: &mut Option<T>)
     ensures *final(min) == upd_max(*old(min), value)
 { unimplemented!() }
+
+/// Iterator::any / Iterator::find over the prototype with a name-equality closure (assumed std semantics)
+spec fn has_name(p: Seq<Record>, name: RecordName) -> bool { exists|i: int| 0 <= i < p.len() && (#[trigger] p[i]).name == name }
+#[verifier::opaque]
+spec fn first_named(p: Seq<Record>, name: RecordName) -> int { choose|i: int| 0 <= i < p.len() && (#[trigger] p[i]).name == name && forall|j: int| 0 <= j < i ==> p[j].name != name }
+#[verifier::external_body]
+fn shim_has(p: &Vec<Record>, name: RecordName) -> (r: bool) ensures r == has_name(p@, name) { unimplemented!() }
+#[verifier::external_body]
+fn shim_find(p: &Vec<Record>, name: RecordName) -> (r: Option<&Record>)
+    ensures (r is Some) == has_name(p@, name), r is Some ==> 0 <= first_named(p@, name) < p@.len() && *r->Some_0 == p@[first_named(p@, name)] && p@[first_named(p@, name)].name == name
+{ unimplemented!() }
+#[verifier::external_body]
+fn shim_vec_bsw(n: usize) -> (r: Vec<ByteStreamWriteBuffer>)
+    ensures r@.len() == n, forall|i: int| 0 <= i < n ==> (#[trigger] r@[i]).wf() && r@[i].nbits() == 0
+{ unimplemented!() }
+#[verifier::external_body]
+fn shim_opaque_from_str(s: &str) -> (r: Opaque) { unimplemented!() }
+/// validate_prototype (closures over iterators): contract-only; the facts used here are the documented rules it enforces
+spec fn proto_rules(p: Seq<Record>) -> bool {
+    &&& forall|i: int| 0 <= i < p.len() ==> (((#[trigger] p[i]).name == RecordName::RowIndex || p[i].name == RecordName::ColumnIndex || p[i].name == RecordName::ReturnIndex) ==> p[i].data_type is Integer)
+    &&& ((has_name(p, RecordName::CartesianY) || has_name(p, RecordName::CartesianZ)) ==> has_name(p, RecordName::CartesianX))
+    &&& ((has_name(p, RecordName::SphericalElevation) || has_name(p, RecordName::SphericalRange)) ==> has_name(p, RecordName::SphericalAzimuth))
+    &&& (has_name(p, RecordName::ColorRed) ==> has_name(p, RecordName::ColorGreen) && has_name(p, RecordName::ColorBlue))
+}
+proof fn lemma_bounds_present(p: Seq<Record>, cb: bool, sb: bool, ib: bool)
+    requires proto_rules(p), cb == has_name(p, RecordName::CartesianX), sb == has_name(p, RecordName::SphericalAzimuth),
+        ib == (has_name(p, RecordName::ReturnIndex) || has_name(p, RecordName::ColumnIndex) || has_name(p, RecordName::RowIndex)),
+    ensures forall|i: int| 0 <= i < p.len() ==> {
+            let nm = (#[trigger] p[i]).name;
+            &&& ((nm == RecordName::CartesianX || nm == RecordName::CartesianY || nm == RecordName::CartesianZ) ==> cb)
+            &&& ((nm == RecordName::SphericalAzimuth || nm == RecordName::SphericalElevation || nm == RecordName::SphericalRange) ==> sb)
+            &&& ((nm == RecordName::RowIndex || nm == RecordName::ColumnIndex || nm == RecordName::ReturnIndex) ==> ib && p[i].data_type is Integer)
+        }
+{
+    assert forall|i: int| 0 <= i < p.len() implies ({
+            let nm = (#[trigger] p[i]).name;
+            &&& ((nm == RecordName::CartesianX || nm == RecordName::CartesianY || nm == RecordName::CartesianZ) ==> cb)
+            &&& ((nm == RecordName::SphericalAzimuth || nm == RecordName::SphericalElevation || nm == RecordName::SphericalRange) ==> sb)
+            &&& ((nm == RecordName::RowIndex || nm == RecordName::ColumnIndex || nm == RecordName::ReturnIndex) ==> ib && p[i].data_type is Integer)
+        }) by {
+        let nm = p[i].name;
+        if nm == RecordName::CartesianX { assert(has_name(p, RecordName::CartesianX)); }
+        if nm == RecordName::CartesianY { assert(has_name(p, RecordName::CartesianY)); }
+        if nm == RecordName::CartesianZ { assert(has_name(p, RecordName::CartesianZ)); }
+        if nm == RecordName::SphericalAzimuth { assert(has_name(p, RecordName::SphericalAzimuth)); }
+        if nm == RecordName::SphericalElevation { assert(has_name(p, RecordName::SphericalElevation)); }
+        if nm == RecordName::SphericalRange { assert(has_name(p, RecordName::SphericalRange)); }
+        if nm == RecordName::RowIndex { assert(has_name(p, RecordName::RowIndex)); }
+        if nm == RecordName::ColumnIndex { assert(has_name(p, RecordName::ColumnIndex)); }
+        if nm == RecordName::ReturnIndex { assert(has_name(p, RecordName::ReturnIndex)); }
+    }
+}
+#[verifier::external_body]
+fn validate_prototype_contract(p: &Vec<Record>) -> (r: Result<()>) ensures r is Ok ==> proto_rules(p@) { unimplemented!() }
+/// get_max_packet_points (iterator sum): contract-only; Kani unit wr_k checks totality and the packet-size bound (prototype length bounded)
+#[verifier::external_body]
+fn get_max_packet_points(p: &Vec<Record>) -> (r: usize) ensures 1 <= r <= 0x10_0000 { unimplemented!() }
+/// default limits: the declared range of the attribute's data type (Kani unit wr_k proves limits()/from_record_type(s) on the real functions)
+spec fn limits_spec(dt: RecordDataType) -> (Option<RecordValue>, Option<RecordValue>) {
+    match dt {
+        RecordDataType::Single { min, max } => (match min { Some(v) => Some(RecordValue::Single(v)), None => None }, match max { Some(v) => Some(RecordValue::Single(v)), None => None }),
+        RecordDataType::Double { min, max } => (match min { Some(v) => Some(RecordValue::Double(v)), None => None }, match max { Some(v) => Some(RecordValue::Double(v)), None => None }),
+        RecordDataType::ScaledInteger { min, max, .. } => (Some(RecordValue::ScaledInteger(min)), Some(RecordValue::ScaledInteger(max))),
+        RecordDataType::Integer { min, max } => (Some(RecordValue::Integer(min)), Some(RecordValue::Integer(max))),
+    }
+}
+spec fn intensity_limits_spec(dt: RecordDataType) -> IntensityLimits { IntensityLimits { intensity_min: limits_spec(dt).0, intensity_max: limits_spec(dt).1 } }
+spec fn color_limits_spec(r: RecordDataType, g: RecordDataType, b: RecordDataType) -> ColorLimits {
+    ColorLimits { red_min: limits_spec(r).0, red_max: limits_spec(r).1, green_min: limits_spec(g).0, green_max: limits_spec(g).1, blue_min: limits_spec(b).0, blue_max: limits_spec(b).1 }
+}
+impl IntensityLimits {
+    #[verifier::external_body]
+    fn from_record_type(data_type: &RecordDataType) -> (r: Self) ensures r == intensity_limits_spec(*data_type) { unimplemented!() }
+}
+impl ColorLimits {
+    #[verifier::external_body]
+    fn from_record_types(red: &RecordDataType, green: &RecordDataType, blue: &RecordDataType) -> (r: Self) ensures r == color_limits_spec(*red, *green, *blue) { unimplemented!() }
+}
+/// assumed: derive(Default) yields all-None bounds
+impl CartesianBounds { #[verifier::external_body] fn spec_default() -> (r: Self) ensures r == (CartesianBounds { x_min: None, x_max: None, y_min: None, y_max: None, z_min: None, z_max: None }) { unimplemented!() } }
+impl SphericalBounds { #[verifier::external_body] fn spec_default() -> (r: Self) ensures r == (SphericalBounds { range_min: None, range_max: None, elevation_min: None, elevation_max: None, azimuth_start: None, azimuth_end: None }) { unimplemented!() } }
+impl IndexBounds { #[verifier::external_body] fn spec_default() -> (r: Self) ensures r == (IndexBounds { row_min: None, row_max: None, column_min: None, column_max: None, return_min: None, return_max: None }) { unimplemented!() } }
+impl CompressedVectorSectionHeader {
+//@fn src/cv_section.rs CompressedVectorSectionHeader default trait=Default ret=r serves=C02
+//@sig
+        ensures r.section_id == 1, r.section_length == 0, r.data_offset == 0, r.index_offset == 0,
+//@endfn
+}
+#[verifier::external_body]
+fn shim_clone_opaque(o: &Opaque) -> (r: Opaque) ensures r == *o { unimplemented!() }
+#[verifier::external_body]
+fn shim_clone_proto(p: &Vec<Record>) -> (r: Vec<Record>) ensures r@ == p@ { unimplemented!() }
 
 // ---- C14 specification: bounds are the fold of min/max over the records of every point added ----
 spec fn cart_step(b: CartesianBounds, name: RecordName, v: f64) -> CartesianBounds {
@@ -103,6 +195,10 @@ spec fn opt_idx(o: Option<IndexBounds>, proto: Seq<Record>, vals: Seq<RecordValu
 spec fn enc_pts(dt: RecordDataType, i: int, pts: Seq<RawValues>, k: int) -> Seq<bool>
     decreases k
 { if k <= 0 { Seq::<bool>::empty() } else { enc_pts(dt, i, pts, k - 1) + dt.enc(pts[k - 1]@[i]) } }
+/// all bits of stream i after the first k points of `pts` were packed on top of the streams `bs`
+spec fn all_bits_of(bs: Seq<ByteStreamWriteBuffer>, proto: Seq<Record>, pts: Seq<RawValues>, i: int, k: int) -> Seq<bool> {
+    bs[i].bits() + enc_pts(proto[i].data_type, i, pts, k)
+}
 /// LE u16 sizes of the first j chunks
 spec fn sizes_le(chunks: Seq<Seq<u8>>, j: int) -> Seq<u8>
     decreases j
@@ -190,23 +286,28 @@ impl ByteStreamWriteBuffer {
 }
 
 impl<'a> PointCloudWriter<'a> {
-    /// what one call of write_buffer_to_disk did: k points packed, `chunks` emitted as one data packet (or nothing)
-    spec fn emitted(&self, o: &Self, k: int, last: bool, chunks: Seq<Seq<u8>>) -> bool {
-        let n = o.n();
+    /// what packing did relative to the streams `obs`, writer `ow`, section length `osl` and the point sequence `pts`:
+    /// k points packed, `chunks` emitted as one data packet (or nothing)
+    #[verifier::opaque]
+    spec fn emitted_core(&self, obs: Seq<ByteStreamWriteBuffer>, ow: PagedWriter, osl: u64, pts: Seq<RawValues>, k: int, last: bool, chunks: Seq<Seq<u8>>) -> bool {
+        let n = self.n();
         &&& chunks.len() == n
         // C01/C12: per stream, the emitted chunk followed by what stays buffered is everything that was buffered plus the k new encodings
         &&& forall|i: int| 0 <= i < n ==> {
-                let all = o.all_bits(i, k);
+                let all = all_bits_of(obs, self.prototype@, pts, i, k);
                 if last { (#[trigger] chunks[i]).len() == (all.len() + 7) / 8 && bits_of(chunks[i]).subrange(0, all.len() as int) =~= all
                             && (forall|b: int| all.len() <= b < 8 * chunks[i].len() ==> !bit_at(chunks[i], b)) && self.byte_streams@[i].bits().len() == 0 }
                 else { bits_of(#[trigger] chunks[i]) + self.byte_streams@[i].bits() =~= all && self.byte_streams@[i].nbits() < 8 }
             }
         // C01/C02: exactly one well-formed data packet is appended iff there is at least one byte to emit
-        &&& (total_len(chunks, n) > 0 ==> appended(*o.writer, *self.writer, spec_data_packet(chunks))
-                && self.section_header.section_length as int == o.section_header.section_length + spec_data_packet(chunks).len()
+        &&& (total_len(chunks, n) > 0 ==> appended(ow, *self.writer, spec_data_packet(chunks))
+                && self.section_header.section_length as int == osl + spec_data_packet(chunks).len()
                 && spec_data_packet(chunks).len() == up4(6 + 2 * n + total_len(chunks, n)) && spec_data_packet(chunks).len() <= 65535)
-        &&& (total_len(chunks, n) == 0 ==> appended(*o.writer, *self.writer, Seq::<u8>::empty())
-                && self.section_header.section_length == o.section_header.section_length)
+        &&& (total_len(chunks, n) == 0 ==> appended(ow, *self.writer, Seq::<u8>::empty())
+                && self.section_header.section_length == osl)
+    }
+    spec fn emitted(&self, o: &Self, k: int, last: bool, chunks: Seq<Seq<u8>>) -> bool {
+        self.emitted_core(o.byte_streams@, *o.writer, o.section_header.section_length, o.buffer@, k, last, chunks)
     }
     spec fn n(&self) -> int { self.prototype@.len() as int }
     /// established by PointCloudWriter::new: a bounds struct exists for every attribute group of the prototype
@@ -236,6 +337,7 @@ impl<'a> PointCloudWriter<'a> {
         // C02: the section length is the number of logical bytes written since the section start
         &&& self.section_header.section_length as int == self.writer.cursor() - unphys(self.section_offset as int)
         &&& self.section_header.section_length >= 32 && self.section_header.section_length as int <= self.writer.cursor()
+        &&& self.section_header.section_length % 4 == 0
     }
     /// what does not change when buffered points are packed and written
     spec fn same_meta(&self, o: &Self) -> bool {
@@ -245,15 +347,74 @@ impl<'a> PointCloudWriter<'a> {
         &&& self.section_header.index_offset == o.section_header.index_offset
         &&& self.cartesian_bounds == o.cartesian_bounds && self.spherical_bounds == o.spherical_bounds && self.index_bounds == o.index_bounds
         &&& self.color_limits == o.color_limits && self.intensity_limits == o.intensity_limits
+        &&& self.pointclouds@ == o.pointclouds@
     }
+    spec fn all_bits(&self, i: int, k: int) -> Seq<bool> { all_bits_of(self.byte_streams@, self.prototype@, self.buffer@, i, k) }
     /// number of points one call of write_buffer_to_disk packs
     spec fn packed_now(&self) -> int {
         if self.max_points_per_packet <= self.buffer@.len() { self.max_points_per_packet as int } else { self.buffer@.len() as int }
     }
-    /// all bits of stream i after the first k buffered points were packed
-    spec fn all_bits(&self, i: int, k: int) -> Seq<bool> {
-        self.byte_streams@[i].bits() + enc_pts(self.prototype@[i].data_type, i, self.buffer@, k)
-    }
+//@fn src/pc_writer.rs PointCloudWriter new serves=C01,C02,C14,C10,C16 ret=r
+//@rw writer: &'a mut PagedWriter<T> ==> writer: &'a mut PagedWriter
+//@rw Self::validate_prototype\(&prototype\)\? ==> validate_prototype_contract(&prototype)?
+//@rw vec!\[ByteStreamWriteBuffer::new\(\); prototype\.len\(\)\] ==> shim_vec_bsw(prototype.len())
+//@rw prototype\s*\.iter\(\)\s*\.any\(\|p\| p\.name == (RecordName::\w+)\) ==> shim_has(&prototype, \1)
+//@rw prototype\.iter\(\)\.any\(\|p\| \{\s*p\.name == RecordName::ReturnIndex\s*\|\| p\.name == RecordName::ColumnIndex\s*\|\| p\.name == RecordName::RowIndex\s*\}\) ==> (shim_has(&prototype, RecordName::ReturnIndex) || shim_has(&prototype, RecordName::ColumnIndex) || shim_has(&prototype, RecordName::RowIndex))
+//@rw prototype\s*\.iter\(\)\s*\.find\(\|p\| p\.name == (RecordName::\w+)\) ==> shim_find(&prototype, \1)
+//@rw intensity\.map\(\|i\| IntensityLimits::from_record_type\(&i\.data_type\)\) ==> (match intensity { Some(i) => Some(IntensityLimits::from_record_type(&i.data_type)), None => None })
+//@rw guid\.to_owned\(\) ==> shim_opaque_from_str(guid)
+//@rw section_header\.write\(writer\)\? ==> section_header.write(writer)?
+//@rw (CartesianBounds|SphericalBounds|IndexBounds)::default\(\) ==> \1::spec_default()
+//@sig
+        requires old(writer).wf(), old(writer).cursor() % 4 == 0, prototype@.len() < 0x8000,
+        ensures
+            r is Ok ==> r->Ok_0.wf_w(),
+            r is Ok ==> r->Ok_0.bounds_present(),
+            r is Ok ==> r->Ok_0.prototype@ == prototype@ && r->Ok_0.point_count == 0 && r->Ok_0.buffer@.len() == 0 && r->Ok_0.pointclouds@ == old(pointclouds)@,
+            // C14 base case: empty bounds exactly for the attribute groups of the prototype
+            /*[C14]*/ r is Ok ==> r->Ok_0.cartesian_bounds == (if has_name(prototype@, RecordName::CartesianX) { Some(CartesianBounds { x_min: None, x_max: None, y_min: None, y_max: None, z_min: None, z_max: None }) } else { None }),
+            /*[C14]*/ r is Ok ==> r->Ok_0.spherical_bounds == (if has_name(prototype@, RecordName::SphericalAzimuth) { Some(SphericalBounds { range_min: None, range_max: None, elevation_min: None, elevation_max: None, azimuth_start: None, azimuth_end: None }) } else { None }),
+            /*[C14]*/ r is Ok ==> r->Ok_0.index_bounds == (if has_name(prototype@, RecordName::ReturnIndex) || has_name(prototype@, RecordName::ColumnIndex) || has_name(prototype@, RecordName::RowIndex)
+                        { Some(IndexBounds { row_min: None, row_max: None, column_min: None, column_max: None, return_min: None, return_max: None }) } else { None }),
+            // C14: default limits = declared range of the corresponding attribute type
+            /*[C14]*/ (r is Ok && has_name(prototype@, RecordName::Intensity)) ==> r->Ok_0.intensity_limits == Some(intensity_limits_spec(prototype@[first_named(prototype@, RecordName::Intensity)].data_type)),
+            /*[C14]*/ (r is Ok && !has_name(prototype@, RecordName::Intensity)) ==> r->Ok_0.intensity_limits is None,
+            /*[C14]*/ (r is Ok && has_name(prototype@, RecordName::ColorRed)) ==> r->Ok_0.color_limits == Some(color_limits_spec(
+                        prototype@[first_named(prototype@, RecordName::ColorRed)].data_type, prototype@[first_named(prototype@, RecordName::ColorGreen)].data_type, prototype@[first_named(prototype@, RecordName::ColorBlue)].data_type)),
+            /*[C14]*/ (r is Ok && !has_name(prototype@, RecordName::ColorRed)) ==> r->Ok_0.color_limits is None,
+            // C01/C02: the section starts with a 32-byte header placeholder at the old cursor; published offsets are physical positions
+            /*[C01,C02]*/ r is Ok ==> appended(*old(writer), *r->Ok_0.writer, spec_cv_header(1, 32, 0, 0)),
+            /*[C01,C02]*/ r is Ok ==> r->Ok_0.section_offset == phys(old(writer).cursor()) && r->Ok_0.section_header.data_offset == phys(old(writer).cursor() + 32)
+                && r->Ok_0.section_header.section_length == 32 && r->Ok_0.section_header.section_id == 1,
+            /*[C16]*/ r is Ok ==> r->Ok_0.writer.no_new_fault(old(writer)),
+//@body_start
+        let ghost w0 = *writer;
+        proof { lemma_cursor_bound(w0); lemma_phys_roundtrip(w0.cursor()); }
+//@call physical_position 0 after
+        let ghost wa = *writer;
+        proof { assert(wa.cursor() == w0.cursor() && wa.stream() == w0.stream()); }
+//@call write 0 after
+        let ghost wb = *writer;
+        proof {
+            assert(spec_cv_header(1, 32, 0, 0).len() == 32);
+            assert(wb.cursor() == w0.cursor() + 32);
+            assert(appended(w0, wb, spec_cv_header(1, 32, 0, 0)));
+            lemma_appended_content(w0, wb, spec_cv_header(1, 32, 0, 0));
+        }
+//@call physical_position 1 after
+        proof {
+            assert(*writer == wb || (writer.cursor() == wb.cursor() && writer.stream() == wb.stream()));
+            assert(section_header.data_offset == phys(w0.cursor() + 32));
+            assert(section_offset == phys(w0.cursor()));
+            assert(unphys(section_offset as int) == w0.cursor());
+        }
+//@stmt 0 before Ok\(PointCloudWriter \{
+        proof {
+            lemma_bounds_present(prototype@, cartesian_bounds is Some, spherical_bounds is Some, index_bounds is Some);
+            assert(writer.cursor() == w0.cursor() + 32);
+            assert(section_header.section_length as int == writer.cursor() - unphys(section_offset as int));
+        }
+//@endfn
 
 //@fn src/pc_writer.rs PointCloudWriter write_buffer_to_disk serves=C01,C02,C10,C16 ret=r
 //@rw for _ in 0\.\.packet_points ==> for _k in it: 0..packet_points
@@ -268,7 +429,8 @@ impl<'a> PointCloudWriter<'a> {
 //@sig
         requires old(self).wf_w(),
         ensures
-            r is Ok ==> final(self).same_meta(old(self)),
+            // metadata, bounds, limits and the point count are never touched, also not on an error exit
+            final(self).same_meta(old(self)),
             r is Ok ==> final(self).wf_w(),
             // the first k = min(capacity, buffered) points are packed, in order; the rest stays buffered
             /*[C01]*/ r is Ok ==> final(self).buffer@ =~= old(self).buffer@.subrange(old(self).packed_now(), old(self).buffer@.len() as int),
@@ -398,57 +560,75 @@ impl<'a> PointCloudWriter<'a> {
             }
 //@tail
         proof {
-            let n = mid.n();
-            let tot = total_len(chunks, n);
-            lemma_total_nonneg(chunks, n);
-            let pad = Seq::new((self.writer.cursor() - wmid.cursor()) as nat, |i: int| 0u8);
-            lemma_appended_trans(w0, wmid, *self.writer, body, pad);
-            if sum_bs_sizes > 0 {
-                lemma_up4(6 + 2 * n + tot);
-                assert(pad =~= zeros(up4(6 + 2 * n + tot) - 6 - 2 * n - tot));
-                assert(body + pad =~= spec_data_packet(chunks));
-            } else {
-                lemma_sum_chunk_zero(mid.byte_streams@, last_flush, n);
-                lemma_sum_chunk_total(mid.byte_streams@, last_flush, chunks, n);
-                assert(pad =~= Seq::<u8>::empty());
-                assert(body + pad =~= Seq::<u8>::empty());
-            }
-            assert(chunks.len() == n);
-            assert(old(self).n() == n);
-            assert forall|i: int| 0 <= i < n implies (#[trigger] self.byte_streams@[i]).wf() && self.byte_streams@[i].nbits() < 8 by {
-                if sum_bs_sizes == 0 { assert(self.byte_streams@[i] == mid.byte_streams@[i]); assert(mid.byte_streams@[i].chunk_len(last_flush) == 0); }
-                else { let c = chunks[i]; assert(c.len() == mid.byte_streams@[i].chunk_len(last_flush)); }
-            }
-            assert forall|i: int| 0 <= i < n implies ({
-                let all = old(self).all_bits(i, k);
-                if last_flush { (#[trigger] chunks[i]).len() == (all.len() + 7) / 8 && bits_of(chunks[i]).subrange(0, all.len() as int) =~= all
-                            && (forall|b: int| all.len() <= b < 8 * chunks[i].len() ==> !bit_at(chunks[i], b)) && self.byte_streams@[i].bits().len() == 0 }
-                else { bits_of(#[trigger] chunks[i]) + self.byte_streams@[i].bits() =~= all && self.byte_streams@[i].nbits() < 8 } }) by { }
-            assert(tot > 0 ==> appended(*old(self).writer, *self.writer, spec_data_packet(chunks)));
-            assert(tot > 0 ==> self.section_header.section_length as int == old(self).section_header.section_length + spec_data_packet(chunks).len());
-            assert(tot > 0 ==> spec_data_packet(chunks).len() == up4(6 + 2 * n + tot) && spec_data_packet(chunks).len() <= 65535);
-            assert(tot == 0 ==> appended(*old(self).writer, *self.writer, Seq::<u8>::empty()) && self.section_header.section_length == old(self).section_header.section_length);
-            assert(self.emitted(old(self), k, last_flush, chunks));
-            assert(self.same_meta(old(self)));
-            assert(self.pts_fit(self.buffer@)) by {
-                assert forall|j: int| 0 <= j < self.buffer@.len() implies (#[trigger] self.buffer@[j])@.len() == self.n()
-                    && forall|i: int| 0 <= i < self.n() ==> (#[trigger] self.prototype@[i]).data_type.fits(self.buffer@[j]@[i]) by {
-                    assert(self.buffer@[j] == old(self).buffer@[j + k]);
-                }
-            }
-            assert(self.wf_w());
-            assert(self.writer.no_new_fault(&w0));
-            assert(self.buffer@ =~= old(self).buffer@.subrange(k, old(self).buffer@.len() as int));
+            lemma_wbtd_finish(*old(self), mid, *self, k, last_flush, sum_bs_sizes as int, chunks, wmid, body);
             assert(k == old(self).packed_now());
+            assert(self.emitted(old(self), old(self).packed_now(), last_flush, chunks));
+        }
+//@endfn
+
+//@fn src/pc_writer.rs PointCloudWriter finalize serves=C01,C02,C14,C09,C16 ret=r
+//@rw self\.section_header\.write\(&mut self\.writer\)\? ==> self.section_header.write(self.writer)?
+//@rw !self\.buffer\.is_empty\(\) ==> self.buffer.len() > 0
+//@rw self\.guid\.clone\(\) ==> shim_clone_opaque(&self.guid)
+//@rw self\.prototype\.clone\(\) ==> shim_clone_proto(&self.prototype)
+//@sig
+        requires old(self).wf_w(),
+        ensures
+            r is Ok ==> final(self).writer.wf() && final(self).buffer@.len() == 0,
+            // C02: the section header at the section start carries the final section length = logical bytes of the whole section,
+            // nothing else in the stream changes by the patch, and the cursor is back at the end of the section
+            /*[C02,C01]*/ r is Ok ==> ({
+                let cs = unphys(old(self).section_offset as int); let w = *final(self).writer;
+                let hdr = spec_cv_header(final(self).section_header.section_id, final(self).section_header.section_length,
+                                         final(self).section_header.data_offset, final(self).section_header.index_offset);
+                &&& final(self).section_header.section_length as int == w.cursor() - cs
+                &&& final(self).section_header.section_length % 4 == 0
+                &&& w.stream().len() >= cs + 32 && w.stream().subrange(cs, cs + 32) =~= hdr
+            }),
+            // C01/C14: the descriptor pushed for the XML carries the number of points added, the section start, the prototype,
+            // the bounds and the limits as they are
+            /*[C01,C14]*/ r is Ok ==> final(self).pointclouds@.len() == old(self).pointclouds@.len() + 1 && ({
+                let pc = final(self).pointclouds@[old(self).pointclouds@.len() as int];
+                &&& pc.records == old(self).point_count && pc.file_offset == old(self).section_offset && pc.prototype@ == old(self).prototype@
+                &&& pc.cartesian_bounds == old(self).cartesian_bounds && pc.spherical_bounds == old(self).spherical_bounds && pc.index_bounds == old(self).index_bounds
+                &&& pc.color_limits == old(self).color_limits && pc.intensity_limits == old(self).intensity_limits
+            }),
+            /*[C16]*/ r is Ok ==> final(self).writer.no_new_fault(&*old(self).writer),
+//@loop 0 head
+            invariant self.wf_w(), self.same_meta(old(self)), self.writer.no_new_fault(&*old(self).writer),
+            // C09: every round packs at least one buffered point
+            decreases self.buffer@.len(),
+//@call physical_position 0 before
+        let ghost wa = *self.writer;
+        proof { lemma_cursor_bound(wa); lemma_phys_roundtrip(wa.cursor()); }
+//@call physical_seek 0 after
+        let ghost wb = *self.writer;
+//@call write 0 after
+        let ghost wc = *self.writer;
+        proof { lemma_appended_content(wb, wc, spec_cv_header(self.section_header.section_id, self.section_header.section_length, self.section_header.data_offset, self.section_header.index_offset)); }
+//@call physical_seek 1 after
+        proof {
+            let cs = unphys(self.section_offset as int);
+            assert(self.writer.stream() == wc.stream());
+            assert(wc.stream().subrange(cs, cs + 32) =~= spec_cv_header(self.section_header.section_id, self.section_header.section_length, self.section_header.data_offset, self.section_header.index_offset));
         }
 //@endfn
 
 //@fn src/pc_writer.rs PointCloudWriter add_point serves=C10,C14,C01 ret=r
 //@rw for \(i, p\) in self\.prototype\.iter\(\)\.enumerate\(\) \{ ==> for i in 0..self.prototype.len() { let p = &self.prototype[i]; ;n=2
 //@sig
-        requires old(self).point_count < u64::MAX, old(self).bounds_present(),
+        requires old(self).point_count < u64::MAX, old(self).bounds_present(), old(self).wf_w(),
         ensures
             final(self).prototype == old(self).prototype, final(self).bounds_present(),
+            r is Ok ==> final(self).wf_w(),
+            // C01: the point joins the pending points in order; when the packet capacity is reached the pending points are packed (write_buffer_to_disk contract)
+            /*[C01]*/ (r is Ok && old(self).buffer@.len() + 1 < old(self).max_points_per_packet) ==> final(self).buffer@ =~= old(self).buffer@.push(values)
+                && final(self).byte_streams@ == old(self).byte_streams@ && *final(self).writer == *old(self).writer && final(self).section_header == old(self).section_header,
+            /*[C01]*/ (r is Ok && old(self).buffer@.len() + 1 >= old(self).max_points_per_packet) ==> ({
+                let b1 = old(self).buffer@.push(values); let k = old(self).max_points_per_packet as int;
+                &&& final(self).buffer@ =~= b1.subrange(k, b1.len() as int)
+                &&& exists|chunks: Seq<Seq<u8>>| #[trigger] final(self).emitted_core(old(self).byte_streams@, *old(self).writer, old(self).section_header.section_length, b1, k, false, chunks)
+            }),
             /*[C10]*/ r is Ok ==> values@.len() == old(self).n() && forall|i: int| 0 <= i < old(self).n() ==> (#[trigger] old(self).prototype@[i]).data_type.fits(values@[i]),
             /*[C14]*/ r is Ok ==> final(self).cartesian_bounds == opt_cart(old(self).cartesian_bounds, old(self).prototype@, values@, old(self).n()),
             /*[C14]*/ r is Ok ==> final(self).spherical_bounds == opt_sph(old(self).spherical_bounds, old(self).prototype@, values@, old(self).n()),
@@ -459,17 +639,105 @@ impl<'a> PointCloudWriter<'a> {
             /*[C10]*/ (r is Err && final(self).point_count == old(self).point_count) ==> final(self).buffer@ == old(self).buffer@,
 //@loop 0 head
             invariant
-                *self == *old(self), old(self).bounds_present(),
+                *self == *old(self), old(self).bounds_present(), old(self).wf_w(),
                 values@.len() == self.prototype@.len(),
                 /*[C10]*/ forall|j: int| 0 <= j < i ==> (#[trigger] self.prototype@[j]).data_type.fits(values@[j]),
 //@loop 1 head
             invariant
                 self.prototype == old(self).prototype, self.point_count == old(self).point_count, self.buffer == old(self).buffer,
-                old(self).bounds_present(),
+                old(self).bounds_present(), old(self).wf_w(), self.byte_streams == old(self).byte_streams, self.writer == old(self).writer,
+                self.section_header == old(self).section_header, self.section_offset == old(self).section_offset,
+                self.max_points_per_packet == old(self).max_points_per_packet, self.pointclouds == old(self).pointclouds,
+                self.color_limits == old(self).color_limits, self.intensity_limits == old(self).intensity_limits,
                 values@.len() == self.prototype@.len(),
                 forall|j: int| 0 <= j < self.prototype@.len() ==> (#[trigger] self.prototype@[j]).data_type.fits(values@[j]),
                 /*[C14]*/ self.cartesian_bounds == opt_cart(old(self).cartesian_bounds, self.prototype@, values@, i as int),
                 /*[C14]*/ self.spherical_bounds == opt_sph(old(self).spherical_bounds, self.prototype@, values@, i as int),
                 /*[C14]*/ self.index_bounds == opt_idx(old(self).index_bounds, self.prototype@, values@, i as int),
+//@stmt 0 before self\.buffer\.push_back\(values\)
+        let ghost vals = values@;
+//@stmt 0 after self\.point_count \+= 1
+        let ghost mid = *self;
+        proof {
+            assert(mid.buffer@ =~= old(self).buffer@.push(values));
+            assert(mid.pts_fit(mid.buffer@)) by {
+                assert forall|j: int| 0 <= j < mid.buffer@.len() implies (#[trigger] mid.buffer@[j])@.len() == mid.n()
+                    && forall|i: int| 0 <= i < mid.n() ==> (#[trigger] mid.prototype@[i]).data_type.fits(mid.buffer@[j]@[i]) by {
+                    if j < old(self).buffer@.len() { assert(mid.buffer@[j] == old(self).buffer@[j]); } else { assert(mid.buffer@[j]@ == vals); }
+                }
+            }
+            assert(mid.wf_w());
+        }
 //@endfn
 }
+
+/// closing argument of write_buffer_to_disk, separated from the function body to keep its query small:
+/// from the facts established by the loops (mid = state after packing k points, f = final state) to wf_w and emitted
+proof fn lemma_wbtd_finish(o: PointCloudWriter, m: PointCloudWriter, f: PointCloudWriter, k: int, last: bool, sum: int, chunks: Seq<Seq<u8>>, wmid: PagedWriter, body: Seq<u8>)
+    requires
+        o.wf_w(), k == o.packed_now(), m.n() == o.n(), f.n() == o.n(), m.prototype == o.prototype,
+        m.byte_streams@.len() == o.n(),
+        forall|i: int| 0 <= i < o.n() ==> (#[trigger] m.byte_streams@[i]).wf() && m.byte_streams@[i].bits() =~= o.all_bits(i, k),
+        m.buffer@ =~= o.buffer@.subrange(k, o.buffer@.len() as int),
+        f.same_meta(&o), f.buffer@ == m.buffer@, f.byte_streams@.len() == o.n(), *m.writer == *o.writer,
+        sum == sum_chunk(m.byte_streams@, last, o.n()), chunks.len() == o.n(),
+        sum > 0 ==> ({
+            &&& forall|i: int| 0 <= i < o.n() ==> (#[trigger] chunks[i]).len() == m.byte_streams@[i].chunk_len(last) && f.byte_streams@[i].wf()
+                    && (if last { chunks[i].len() == (m.byte_streams@[i].nbits() + 7) / 8 && bits_of(chunks[i]).subrange(0, m.byte_streams@[i].nbits()) =~= m.byte_streams@[i].bits()
+                            && (forall|b: int| m.byte_streams@[i].nbits() <= b < 8 * chunks[i].len() ==> !bit_at(chunks[i], b)) && f.byte_streams@[i].bits().len() == 0 && f.byte_streams@[i].nbits() == 0 }
+                        else { bits_of(chunks[i]) + f.byte_streams@[i].bits() =~= m.byte_streams@[i].bits() && f.byte_streams@[i].nbits() < 8 })
+            &&& body == spec_data_packet_header(false, up4(6 + 2 * o.n() + sum) as u64, o.n() as u16) + sizes_le(chunks, o.n()) + concat_chunks(chunks, o.n())
+            &&& appended(*o.writer, wmid, body)
+            &&& f.section_header.section_length as int == o.section_header.section_length + up4(6 + 2 * o.n() + sum)
+            &&& up4(6 + 2 * o.n() + sum) <= 65535
+        }),
+        sum == 0 ==> f.byte_streams@ == m.byte_streams@ && chunks == Seq::new(o.n() as nat, |i: int| Seq::<u8>::empty()) && wmid == *o.writer
+            && body == Seq::<u8>::empty() && f.section_header.section_length == o.section_header.section_length,
+        f.writer.wf(), f.writer.cursor() % 4 == 0, 0 <= f.writer.cursor() - wmid.cursor() < 4,
+        appended(wmid, *f.writer, Seq::new((f.writer.cursor() - wmid.cursor()) as nat, |i: int| 0u8)),
+    ensures f.wf_w(), f.emitted(&o, k, last, chunks)
+{
+    let n = o.n();
+    let tot = total_len(chunks, n);
+    lemma_total_nonneg(chunks, n);
+    lemma_cursor_bound(*o.writer);
+    let pad = Seq::new((f.writer.cursor() - wmid.cursor()) as nat, |i: int| 0u8);
+    if sum > 0 {
+        lemma_sum_chunk_total(m.byte_streams@, last, chunks, n);
+        lemma_appended_trans(*o.writer, wmid, *f.writer, body, pad);
+        lemma_up4(6 + 2 * n + tot);
+        assert(pad =~= zeros(up4(6 + 2 * n + tot) - 6 - 2 * n - tot));
+        assert(body + pad =~= spec_data_packet(chunks));
+    } else {
+        lemma_sum_chunk_nonneg(m.byte_streams@, last, n);
+        lemma_sum_chunk_zero(m.byte_streams@, last, n);
+        assert forall|t: int| 0 <= t < n implies (#[trigger] chunks[t]).len() == m.byte_streams@[t].chunk_len(last) by { }
+        lemma_sum_chunk_total(m.byte_streams@, last, chunks, n);
+        assert(pad =~= Seq::<u8>::empty());
+        lemma_appended_refl(*o.writer);
+        lemma_appended_trans(*o.writer, wmid, *f.writer, body, pad);
+        assert(body + pad =~= Seq::<u8>::empty());
+    }
+    assert forall|i: int| 0 <= i < n implies (#[trigger] f.byte_streams@[i]).wf() && f.byte_streams@[i].nbits() < 8 by {
+        if sum == 0 { assert(f.byte_streams@[i] == m.byte_streams@[i]); assert(m.byte_streams@[i].chunk_len(last) == 0); }
+        else { let c = chunks[i]; assert(c.len() == m.byte_streams@[i].chunk_len(last)); }
+    }
+    assert(f.emitted(&o, k, last, chunks)) by {
+        reveal(PointCloudWriter::emitted_core);
+        assert forall|i: int| 0 <= i < n implies ({
+            let all = o.all_bits(i, k);
+            if last { (#[trigger] chunks[i]).len() == (all.len() + 7) / 8 && bits_of(chunks[i]).subrange(0, all.len() as int) =~= all
+                        && (forall|b: int| all.len() <= b < 8 * chunks[i].len() ==> !bit_at(chunks[i], b)) && f.byte_streams@[i].bits().len() == 0 }
+            else { bits_of(#[trigger] chunks[i]) + f.byte_streams@[i].bits() =~= all && f.byte_streams@[i].nbits() < 8 } }) by {
+            assert(m.byte_streams@[i].bits() =~= o.all_bits(i, k));
+            if sum == 0 { assert(f.byte_streams@[i] == m.byte_streams@[i]); assert(m.byte_streams@[i].chunk_len(last) == 0); assert(chunks[i] =~= Seq::<u8>::empty()); }
+        }
+    }
+    assert(f.pts_fit(f.buffer@)) by {
+        assert forall|j: int| 0 <= j < f.buffer@.len() implies (#[trigger] f.buffer@[j])@.len() == f.n()
+            && forall|i: int| 0 <= i < f.n() ==> (#[trigger] f.prototype@[i]).data_type.fits(f.buffer@[j]@[i]) by {
+            assert(f.buffer@[j] == o.buffer@[j + k]);
+        }
+    }
+}
+
